@@ -422,3 +422,385 @@ Lemma unsupported_stmt_refused : forall fs, fs = expected_facts -> forall S G fu
   tbody fs S G (Datatypes.S fuel) body (SCons SOther rest) sigma = TRefused
   /\ tbody fs S G (Datatypes.S fuel) body (SCons SReturnNone rest) sigma = TRefused.
 Proof. intros fs Hfs S G fuel body rest sigma. subst fs. split; reflexivity. Qed.
+
+(** * Soundness *)
+
+Definition fun_rel (g : fsem) (su : summary) : Prop :=
+  forall ps e, su = Some (ps, e) ->
+  forall vs v rho, g vs = Some v ->
+    (forall x q, assoc x (combine ps vs) = Some q -> rho x = Some q) ->
+    length ps = length vs /\ seval rho e = Some v.
+
+Definition tab_rel (F : list fsem) (S : list summary) : Prop := Forall2 fun_rel F S.
+
+Definition inv (sigma : symtab) (rho : env) (rho0 : valuation) : Prop :=
+  forall x, match assoc x rho with
+            | Some v => exists s, assoc x sigma = Some s /\ seval rho0 s = Some v
+            | None => assoc x sigma = None
+            end.
+
+Ltac red_in H := cbv beta iota zeta in H.
+
+Lemma Forall2_nth {A B} (R : A -> B -> Prop) l1 l2 :
+  Forall2 R l1 l2 ->
+  forall i a b, nth_error l1 i = Some a -> nth_error l2 i = Some b -> R a b.
+Proof.
+  induction 1 as [|x y l1 l2 Hxy HF IH]; intros i a b Ha Hb; destruct i as [|i]; simpl in Ha, Hb;
+    try discriminate.
+  - inversion Ha; inversion Hb; subst; exact Hxy.
+  - eapply IH; eauto.
+Qed.
+
+Lemma inv_cons : forall sigma rho rho0 x s v,
+  inv sigma rho rho0 -> seval rho0 s = Some v -> inv ((x, s) :: sigma) ((x, v) :: rho) rho0.
+Proof.
+  intros sigma rho rho0 x s v H Hs y. cbn [assoc].
+  destruct (N.eqb y x).
+  - exists s. split; [reflexivity | exact Hs].
+  - apply H.
+Qed.
+
+Lemma inv_bind : forall rho0 xs ss vs sigma rho,
+  Forall2 (fun s v => seval rho0 s = Some v) ss vs ->
+  inv sigma rho rho0 -> inv (bind_syms xs ss sigma) (bind_all xs vs rho) rho0.
+Proof.
+  intros rho0. induction xs as [|x xs IH]; intros ss vs sigma rho HF Hi.
+  - exact Hi.
+  - destruct HF as [|s v ss vs Hsv HF].
+    + exact Hi.
+    + cbn [bind_syms bind_all]. apply IH; [exact HF|]. apply inv_cons; assumption.
+Qed.
+
+Lemma assoc_init : forall ps (vs : list Q) x, length ps = length vs ->
+  assoc x (map (fun p => (p, SSym p)) ps) =
+  match assoc x (combine ps vs) with Some _ => Some (SSym x) | None => None end.
+Proof.
+  induction ps as [|p ps IH]; intros vs x Hl; destruct vs as [|v vs]; simpl in Hl;
+    try discriminate.
+  - reflexivity.
+  - cbn [map combine assoc]. destruct (N.eqb x p) eqn:E.
+    + apply N.eqb_eq in E. subst. reflexivity.
+    + apply IH. lia.
+Qed.
+
+Lemma inv_init : forall ps vs (rho0 : valuation), length ps = length vs ->
+  (forall x q, assoc x (combine ps vs) = Some q -> rho0 x = Some q) ->
+  inv (map (fun p => (p, SSym p)) ps) (combine ps vs) rho0.
+Proof.
+  intros ps vs rho0 Hl Hext x. rewrite (assoc_init ps vs x Hl).
+  destruct (assoc x (combine ps vs)) as [q|] eqn:E.
+  - exists (SSym x). split; [reflexivity|]. apply Hext. exact E.
+  - reflexivity.
+Qed.
+
+Lemma assoc_combine_F2 : forall (rho0 : valuation) ps ss vs,
+  Forall2 (fun s v => seval rho0 s = Some v) ss vs ->
+  forall x q, assoc x (combine ps vs) = Some q ->
+  exists s, assoc x (combine ps ss) = Some s /\ seval rho0 s = Some q.
+Proof.
+  intros rho0. induction ps as [|p ps IH]; intros ss vs HF x q Hx.
+  - discriminate Hx.
+  - destruct HF as [|s v ss vs Hsv HF].
+    + discriminate Hx.
+    + cbn [combine assoc] in Hx |- *. destruct (N.eqb x p).
+      * inversion Hx; subst. exists s. split; [reflexivity | exact Hsv].
+      * eapply IH; eauto.
+Qed.
+
+Lemma apply_subs_sound : forall g ps body sargs vs v s (rho0 : valuation),
+  fun_rel g (Some (ps, body)) ->
+  Forall2 (fun s v => seval rho0 s = Some v) sargs vs ->
+  g vs = Some v ->
+  apply_subs expected_facts ps sargs body = Some s ->
+  seval rho0 s = Some v.
+Proof.
+  intros g ps body sargs vs v s rho0 Hrel HF Hg Ha. unfold apply_subs in Ha.
+  destruct sargs as [|a sargs'].
+  - inversion Ha; subst s. inversion HF; subst vs.
+    destruct (Hrel ps body eq_refl [] v rho0 Hg) as [_ Hs]; [|exact Hs].
+    intros x q. rewrite combine_nil. discriminate.
+  - destruct (Nat.eqb (length ps) (length (a :: sargs'))); [|discriminate Ha].
+    change (f_subs expected_facts) with SubsSim in Ha. red_in Ha.
+    inversion Ha; subst s. rewrite subs_sim_sound.
+    destruct (Hrel ps body eq_refl vs v
+                (fun x => match assoc x (combine ps (a :: sargs')) with
+                          | Some s => seval rho0 s
+                          | None => rho0 x
+                          end) Hg) as [_ Hs]; [|exact Hs].
+    intros x q Hx. destruct (assoc_combine_F2 rho0 ps _ _ HF x q Hx) as [s0 [Hs0 Hv0]].
+    rewrite Hs0. exact Hv0.
+Qed.
+
+Section Sound.
+  Variable F : list fsem.
+  Variable S : list summary.
+  Hypothesis Htab : tab_rel F S.
+
+  Section Body.
+    Variable G : list (name * Q).
+    Variable rho0 : valuation.
+
+    Local Notation ef := expected_facts.
+
+    Lemma tname_sound : forall sigma rho x s v,
+      inv sigma rho rho0 -> tname G sigma x = Some s -> lookup G rho x = Some v ->
+      seval rho0 s = Some v.
+    Proof.
+      unfold tname, lookup. intros sigma rho x s v Hi Ht Hl. specialize (Hi x).
+      destruct (assoc x rho) as [v0|].
+      - destruct Hi as [s0 [Ha Hs]]. rewrite Ha in Ht. congruence.
+      - rewrite Hi in Ht. destruct (assoc x G) as [q|]; [|discriminate Ht].
+        inversion Ht; inversion Hl; subst. reflexivity.
+    Qed.
+
+    Lemma tchain_false : forall ch sigma prev' a c',
+      tchain ef S G sigma prev' ch (Some a) = Some c' ->
+      sevalc rho0 a = Some false -> sevalc rho0 c' = Some false.
+    Proof.
+      induction ch as [|op e rest IH]; intros sigma prev' a c' Ht Ha.
+      - rewrite tchain_ChNil in Ht. inversion Ht; subst. exact Ha.
+      - rewrite tchain_ChCons in Ht.
+        destruct (texpr ef S G sigma e) as [r|]; [|discriminate Ht].
+        destruct (cmp_tr op) as [[Hop Hl]|[rel [Hl Hrel]]].
+        + rewrite Hl in Ht. discriminate Ht.
+        + rewrite Hl, Hrel in Ht. eapply IH; [exact Ht|].
+          rewrite sevalc_SAnd, Ha. reflexivity.
+    Qed.
+
+    Lemma expr_sound_all :
+      (forall e sigma rho s v, inv sigma rho rho0 ->
+         texpr ef S G sigma e = Some s -> eval F G rho e = Some v -> seval rho0 s = Some v) /\
+      (forall c sigma rho c' b, inv sigma rho rho0 ->
+         tcond ef S G sigma c = Some c' -> evalc F G rho c = Some b -> sevalc rho0 c' = Some b) /\
+      (forall ch sigma rho prev' prev acc c' b, inv sigma rho rho0 ->
+         seval rho0 prev' = Some prev ->
+         (acc = None \/ exists a, acc = Some a /\ sevalc rho0 a = Some true) ->
+         tchain ef S G sigma prev' ch acc = Some c' ->
+         evalch F G rho prev ch = Some b -> sevalc rho0 c' = Some b) /\
+      (forall es sigma rho ss vs, inv sigma rho rho0 ->
+         targs ef S G sigma es = Some ss -> evals F G rho es = Some vs ->
+         Forall2 (fun s v => seval rho0 s = Some v) ss vs).
+    Proof.
+      apply py_mutind.
+      - (* ENum *) intros q sigma rho s v Hi Ht He.
+        rewrite texpr_ENum in Ht. rewrite eval_ENum in He.
+        change (f_const_float ef) with true in Ht. red_in Ht.
+        inversion Ht; inversion He; subst. reflexivity.
+      - (* EVar *) intros x sigma rho s v Hi Ht He.
+        rewrite texpr_EVar in Ht. rewrite eval_EVar in He.
+        eapply tname_sound; eauto.
+      - (* EUn *) intros op a IH sigma rho s v Hi Ht He.
+        rewrite texpr_EUn in Ht. rewrite eval_EUn in He.
+        destruct (texpr ef S G sigma a) as [sa|] eqn:Hta; [|discriminate Ht].
+        destruct (eval F G rho a) as [va|] eqn:Hea; [|discriminate He].
+        pose proof (IH _ _ _ _ Hi Hta Hea) as Hsa.
+        apply un_tr in Ht. destruct Ht as [[Hop Hs]|[Hop Hs]]; subst op s; red_in He.
+        + rewrite Hsa. exact He.
+        + rewrite seval_SNeg, Hsa. exact He.
+      - (* EBin *) intros op a IHa b IHb sigma rho s v Hi Ht He.
+        rewrite texpr_EBin in Ht. rewrite eval_EBin in He.
+        destruct (texpr ef S G sigma a) as [sa|] eqn:Hta; [|discriminate Ht].
+        destruct (texpr ef S G sigma b) as [sb|] eqn:Htb; [|discriminate Ht].
+        destruct (eval F G rho a) as [va|] eqn:Hea; [|discriminate He].
+        destruct (eval F G rho b) as [vb|] eqn:Heb; [|discriminate He].
+        apply bin_tr in Ht. subst s.
+        rewrite seval_SBin, (IHa _ _ _ _ Hi Hta Hea), (IHb _ _ _ _ Hi Htb Heb). exact He.
+      - (* EIfExp *) intros c IHc a IHa b IHb sigma rho s v Hi Ht He.
+        rewrite texpr_EIfExp in Ht. rewrite eval_EIfExp in He.
+        destruct (tcond ef S G sigma c) as [c'|] eqn:Htc; [|discriminate Ht].
+        destruct (texpr ef S G sigma a) as [sa|] eqn:Hta; [|discriminate Ht].
+        destruct (texpr ef S G sigma b) as [sb|] eqn:Htb; [|discriminate Ht].
+        inversion Ht; subst s; clear Ht.
+        destruct (evalc F G rho c) as [[|]|] eqn:Hec; [ | |discriminate He].
+        + rewrite seval_SPw, spw_PCons, (IHc _ _ _ _ Hi Htc Hec).
+          exact (IHa _ _ _ _ Hi Hta He).
+        + rewrite seval_SPw, spw_PCons, (IHc _ _ _ _ Hi Htc Hec).
+          rewrite spw_PCons, sevalc_SBool.
+          exact (IHb _ _ _ _ Hi Htb He).
+      - (* ECall *) intros f args IH sigma rho s v Hi Ht He.
+        rewrite texpr_ECall in Ht. unfold call_with in Ht. rewrite eval_ECall in He.
+        destruct (targs ef S G sigma args) as [sargs|] eqn:Hta; [|discriminate Ht].
+        destruct (nth_error S (N.to_nat f)) as [[[ps body]|]|] eqn:HS; try discriminate Ht.
+        destruct (evals F G rho args) as [vs|] eqn:Hev; [|discriminate He].
+        destruct (nth_error F (N.to_nat f)) as [g|] eqn:HF; [|discriminate He].
+        pose proof (IH _ _ _ _ Hi Hta Hev) as Hargs.
+        pose proof (Forall2_nth _ _ _ Htab _ _ _ HF HS) as Hrel.
+        exact (apply_subs_sound _ _ _ _ _ _ _ _ Hrel Hargs He Ht).
+      - (* ECallKw *) intros f args IH sigma rho s v Hi Ht He. discriminate He.
+      - (* EOther *) intros sigma rho s v Hi Ht He. discriminate He.
+      - (* CCmp *) intros l IHl rest IHr sigma rho c' b Hi Ht He.
+        rewrite tcond_CCmp in Ht. rewrite evalc_CCmp in He.
+        destruct (texpr ef S G sigma l) as [l'|] eqn:Htl; [|discriminate Ht].
+        destruct (eval F G rho l) as [vl|] eqn:Hel; [|discriminate He].
+        exact (IHr sigma rho l' vl None c' b Hi (IHl _ _ _ _ Hi Htl Hel)
+                   (or_introl eq_refl) Ht He).
+      - (* COther *) intros sigma rho c' b Hi Ht He. discriminate Ht.
+      - (* ChNil *) intros sigma rho prev' prev acc c' b Hi Hp Hacc Ht He.
+        rewrite tchain_ChNil in Ht. rewrite evalch_ChNil in He. inversion He; subst b.
+        destruct Hacc as [Hacc|[a [Hacc Ha]]]; subst acc; [discriminate Ht|].
+        inversion Ht; subst. exact Ha.
+      - (* ChCons *) intros op e IHe rest IHr sigma rho prev' prev acc c' b Hi Hp Hacc Ht He.
+        rewrite tchain_ChCons in Ht. rewrite evalch_ChCons in He.
+        destruct (texpr ef S G sigma e) as [r|] eqn:Hte; [|discriminate Ht].
+        destruct (eval F G rho e) as [rv|] eqn:Hee; [|discriminate He].
+        pose proof (IHe _ _ _ _ Hi Hte Hee) as Hr.
+        destruct (cmp_tr op) as [[Hop Hl]|[rel [Hl Hrel]]].
+        + rewrite Hl in Ht. discriminate Ht.
+        + rewrite Hl, Hrel in Ht.
+          set (acc' := match acc with
+                       | None => SRel op prev' r
+                       | Some a => SAnd a (SRel op prev' r)
+                       end) in Ht.
+          assert (Hc : sevalc rho0 (SRel op prev' r) = cmp_sem op prev rv)
+            by (rewrite sevalc_SRel, Hp, Hr; reflexivity).
+          assert (Hacc' : sevalc rho0 acc' = cmp_sem op prev rv).
+          { unfold acc'. destruct Hacc as [Hacc|[a [Hacc Ha]]]; subst acc.
+            - exact Hc.
+            - rewrite sevalc_SAnd, Ha, Hc.
+              destruct (cmp_sem op prev rv) as [[|]|]; reflexivity. }
+          destruct (cmp_sem op prev rv) as [[|]|]; [ | |discriminate He].
+          * eapply IHr; [exact Hi | exact Hr | | exact Ht | exact He].
+            right. exists acc'. split; [reflexivity | exact Hacc'].
+          * inversion He; subst b. eapply tchain_false; [exact Ht | exact Hacc'].
+      - (* ENil *) intros sigma rho ss vs Hi Ht He.
+        rewrite targs_ENil in Ht. rewrite evals_ENil in He.
+        inversion Ht; inversion He; subst. constructor.
+      - (* ECons *) intros e IHe es IHes sigma rho ss vs Hi Ht He.
+        rewrite targs_ECons in Ht. rewrite evals_ECons in He.
+        destruct (texpr ef S G sigma e) as [s|] eqn:Hte; [|discriminate Ht].
+        destruct (targs ef S G sigma es) as [ss'|] eqn:Hta; [|discriminate Ht].
+        destruct (eval F G rho e) as [v|] eqn:Hee; [|discriminate He].
+        destruct (evals F G rho es) as [vs'|] eqn:Hev; [|discriminate He].
+        inversion Ht; inversion He; subst. constructor.
+        + exact (IHe _ _ _ _ Hi Hte Hee).
+        + exact (IHes _ _ _ _ Hi Hta Hev).
+    Qed.
+
+    Definition expr_sound := proj1 expr_sound_all.
+    Definition cond_sound := proj1 (proj2 expr_sound_all).
+    Definition args_sound := proj2 (proj2 (proj2 expr_sound_all)).
+
+    Lemma exec_sapp : forall a b rho,
+      exec F G rho (sapp a b) =
+      match exec F G rho a with Fall rho' => exec F G rho' b | o => o end.
+    Proof.
+      induction a as [|s r IH]; intros b rho; cbn [sapp].
+      - rewrite exec_SNil. reflexivity.
+      - rewrite !exec_SCons. destruct (exec1 F G rho s); try reflexivity. apply IH.
+    Qed.
+
+    Lemma tbody_sound : forall fuel body rem sigma rho e v,
+      inv sigma rho rho0 ->
+      tbody ef S G fuel body rem sigma = TOk e ->
+      exec F G rho rem = Ret v ->
+      seval rho0 e = Some v.
+    Proof.
+      induction fuel as [|n IH]; intros body rem sigma rho e v Hi Ht He.
+      - discriminate Ht.
+      - destruct rem as [|s rest].
+        + rewrite exec_SNil in He. discriminate He.
+        + rewrite tbody_SCons in Ht. rewrite exec_SCons in He.
+          destruct s as [x e0|xs es|c a b|e0| | |]; red_in Ht.
+          * (* SAssign *) rewrite exec1_SAssign in He.
+            destruct (texpr ef S G sigma e0) as [sv|] eqn:Hte; [|discriminate Ht].
+            destruct (eval F G rho e0) as [v0|] eqn:Hee; red_in He; [|discriminate He].
+            eapply IH; [|exact Ht|exact He].
+            apply inv_cons; [exact Hi|]. exact (expr_sound _ _ _ _ _ Hi Hte Hee).
+          * (* STuple *) rewrite exec1_STuple in He. unfold ttuple in Ht.
+            change (f_tuple ef) with TupSim in Ht. red_in Ht.
+            destruct (targs ef S G sigma es) as [ss|] eqn:Hta; [|discriminate Ht].
+            destruct (Nat.eqb (length xs) (length ss)); red_in Ht; [|discriminate Ht].
+            destruct (evals F G rho es) as [vs|] eqn:Hev; red_in He; [|discriminate He].
+            destruct (Nat.eqb (length xs) (length vs)); red_in He; [|discriminate He].
+            eapply IH; [|exact Ht|exact He].
+            apply inv_bind; [|exact Hi]. exact (args_sound _ _ _ _ _ Hi Hta Hev).
+          * (* SIf *) rewrite exec1_SIf in He.
+            change (f_cf ef) with CfContinuation in Ht. red_in Ht.
+            destruct (tbody ef S G n (sapp a rest) (sapp a rest) sigma) as [ie| |] eqn:Hie;
+              destruct (tbody ef S G n (sapp b rest) (sapp b rest) sigma) as [ee| |] eqn:Hee;
+              red_in Ht; try discriminate Ht.
+            destruct (tcond ef S G sigma c) as [c'|] eqn:Htc; [|discriminate Ht].
+            destruct (evalc F G rho c) as [[|]|] eqn:Hec; red_in He; [ | |discriminate He].
+            -- rewrite <- exec_sapp in He.
+               pose proof (IH _ _ _ _ _ _ Hi Hie He) as Hv.
+               pose proof (cond_sound _ _ _ _ _ Hi Htc Hec) as Hc.
+               destruct ee; inversion Ht; subst e; rewrite seval_SPw, spw_PCons, Hc; exact Hv.
+            -- rewrite <- exec_sapp in He.
+               pose proof (IH _ _ _ _ _ _ Hi Hee He) as Hv.
+               pose proof (cond_sound _ _ _ _ _ Hi Htc Hec) as Hc.
+               destruct ee; inversion Ht; subst e; rewrite seval_SPw, spw_PCons, Hc;
+                 try (rewrite spw_PCons, sevalc_SBool); exact Hv.
+          * (* SReturn *) rewrite exec1_SReturn in He. unfold lift in Ht.
+            destruct (texpr ef S G sigma e0) as [s|] eqn:Hte; [|discriminate Ht].
+            destruct (eval F G rho e0) as [v0|] eqn:Hev; red_in He; [|discriminate He].
+            inversion Ht; inversion He; subst. exact (expr_sound _ _ _ _ _ Hi Hte Hev).
+          * (* SReturnNone *) discriminate Ht.
+          * (* SPass *) rewrite exec1_SPass in He. red_in He.
+            eapply IH; [exact Hi|exact Ht|exact He].
+          * (* SOther *) discriminate Ht.
+    Qed.
+  End Body.
+
+  Lemma tfun_sound : forall fd, fun_rel (run_fun F fd) (tfun expected_facts S fd).
+  Proof.
+    intros fd ps e Heq vs v rho Hrun Hext.
+    unfold tfun in Heq.
+    destruct (tbody expected_facts S (fd_globals fd) (Datatypes.S (ssize (fd_body fd)))
+                (fd_body fd) (fd_body fd) (map (fun p => (p, SSym p)) (fd_params fd)))
+      as [e'| |] eqn:Ht; try discriminate Heq.
+    inversion Heq; subst ps e; clear Heq.
+    unfold run_fun in Hrun.
+    destruct (Nat.eqb (length (fd_params fd)) (length vs)) eqn:Hlen; [|discriminate Hrun].
+    apply Nat.eqb_eq in Hlen.
+    destruct (exec F (fd_globals fd) (combine (fd_params fd) vs) (fd_body fd))
+      as [v'| |] eqn:He; try discriminate Hrun.
+    inversion Hrun; subst v'; clear Hrun.
+    split; [exact Hlen|].
+    eapply tbody_sound; [|exact Ht|exact He].
+    apply inv_init; assumption.
+  Qed.
+End Sound.
+
+Lemma tab_from : forall fds F S,
+  tab_rel F S -> tab_rel (sems_from fds F) (summaries_from expected_facts fds S).
+Proof.
+  induction fds as [|fd r IH]; intros F S H.
+  - exact H.
+  - cbn [sems_from summaries_from]. apply IH. apply Forall2_app; [exact H|].
+    constructor; [|constructor]. apply tfun_sound. exact H.
+Qed.
+
+Lemma tab_all : forall fds, tab_rel (sems fds) (summaries expected_facts fds).
+Proof. intros fds. apply tab_from. constructor. Qed.
+
+Lemma sound_unrenamed : forall fs, fs = expected_facts ->
+  forall fds i ps e vs v rho,
+    nth_error (summaries fs fds) i = Some (Some (ps, e)) ->
+    py_call fds i vs = Some v ->
+    (forall x q, assoc x (combine ps vs) = Some q -> rho x = Some q) ->
+    length ps = length vs /\ seval rho e = Some v.
+Proof.
+  intros fs Hfs fds i ps e vs v rho HS Hcall Hext. subst fs.
+  unfold py_call in Hcall.
+  destruct (nth_error (sems fds) i) as [g|] eqn:HF; [|discriminate Hcall].
+  pose proof (Forall2_nth _ _ _ (tab_all fds) _ _ _ HF HS) as Hrel.
+  exact (Hrel ps e eq_refl vs v rho Hcall Hext).
+Qed.
+
+Lemma sound_renamed : forall fs, fs = expected_facts ->
+  forall fds i margs e vs v rho,
+    margs <> [] ->
+    fn_to_sympy fs fds i margs = Some e ->
+    py_call fds i vs = Some v ->
+    Forall2 (fun m x => seval rho m = Some x) margs vs ->
+    seval rho e = Some v.
+Proof.
+  intros fs Hfs fds i margs e vs v rho Hne Hfn Hcall HF2. subst fs.
+  unfold fn_to_sympy in Hfn.
+  destruct (nth_error (summaries expected_facts fds) i) as [[[ps e0]|]|] eqn:HS;
+    try discriminate Hfn.
+  unfold py_call in Hcall.
+  destruct (nth_error (sems fds) i) as [g|] eqn:HF; [|discriminate Hcall].
+  pose proof (Forall2_nth _ _ _ (tab_all fds) _ _ _ HF HS) as Hrel.
+  exact (apply_subs_sound _ _ _ _ _ _ _ _ Hrel HF2 Hcall Hfn).
+Qed.
